@@ -1,6 +1,6 @@
 /-
-Helper lemmas for `Props/C02Big.lean`, section 8: the extension pipeline on the provably sufficient fuel WITH fenced_code,
-for sources without `&` (then the raw-HTML preprocessor leaves the text with the placeholders alone).
+Helper lemmas for `Props/C02Big.lean`, section 8: the extension pipeline on the provably sufficient fuel WITH fenced_code
+(the raw-HTML preprocessor only re-spells character references, which leaves the placeholders blocks of their own).
 
 * `prepareX_fenced`      — what the preprocessors hand on: every placeholder a block of its own, entries `<pre…` without
                            STX/ETX;
@@ -14,6 +14,7 @@ import MdVerif.Lemmas.C02BigXAll
 import MdVerif.Lemmas.C02BigFBlock
 import MdVerif.Lemmas.C02BigFPre
 import MdVerif.Lemmas.C02BigFRaw
+import MdVerif.Lemmas.C02BigFAmp
 import MdVerif.Lemmas.PlaceholdersXRaw
 
 namespace MdVerif.C02BigX
@@ -26,9 +27,10 @@ theorem normalize_no_amp {tab : Nat} {src : Str} (h : '&' ∉ src) : '&' ∉ Nor
   · revert e; decide
   · exact h e
 
-/-- the preprocessors with fenced_code on a source without `&` -/
+/-- the preprocessors with fenced_code: `HtmlBlockPreprocessor` re-spells character references (`;` behind `&#38`),
+    which keeps every placeholder a block of its own (`C02BigAmp.ownBlock_extract`) -/
 theorem prepareX_fenced {x : Exts} {cfg : Cfg} {src text : Str} {stash : List Str} (hf : x.fencedCode = true)
-    (ha : '&' ∉ src) (h : prepareX x cfg src = .ok (text, stash)) :
+    (h : prepareX x cfg src = .ok (text, stash)) :
     NoCtlF.OwnBlock stash.length text ∧ (∀ e ∈ stash, NoCtl e) ∧ ∀ e ∈ stash, NoCtlX.PreEntry e := by
   have hpre := (NoCtlX.prepareX_stash h).1
   unfold prepareX at h
@@ -41,9 +43,8 @@ theorem prepareX_fenced {x : Exts} {cfg : Cfg} {src text : Str} {stash : List St
       · next t' st hr =>
         simp only [FootnotesTree.R.ok.injEq, Prod.mk.injEq] at h
         obtain ⟨rfl, rfl⟩ := h
-        obtain ⟨⟨h1, h2⟩, h3⟩ := NoCtlXF.XT.fencedRunA_own1 hr (normalize_noctl cfg.tab src) (normalize_no_amp ha)
-        rw [extract_no_amp h2]
-        exact ⟨h1, h3, hpre⟩
+        obtain ⟨h1, h3⟩ := NoCtlXF.XT.fencedRunA_own0 hr (normalize_noctl cfg.tab src)
+        exact ⟨C02BigAmp.ownBlock_extract h1, h3, hpre⟩
       · cases h
 
 theorem idsLt0_of_tq {s : Str} (h : NoCtlXF.XT.Tq s) : Inline.IdsLt 0 s := by
@@ -70,9 +71,8 @@ theorem qd_of_xinv {n : Node} (h : BlkX.XInv Blk.okc Blk.okc NoCtlXF.XT.Tq n) : 
     rw [hs] at ht
     exact idsLt0_of_tq ht
 
-/-- **the tree handed to the inline stage holds no inline placeholder, with fenced_code** (`&`-free source,
-    `tab_length ≥ 1`); the HTML stash holds the `<pre…` entries -/
-theorem blockStageX_deepF {x : Exts} {cfg : Cfg} {src : Str} (hf : x.fencedCode = true) (ha : '&' ∉ src)
+/-- **the tree handed to the inline stage holds no inline placeholder, with fenced_code** (`tab_length ≥ 1`); the HTML stash holds the `<pre…` entries -/
+theorem blockStageX_deepF {x : Exts} {cfg : Cfg} {src : Str} (hf : x.fencedCode = true)
     (htab : 0 < cfg.tab) {root : Node} {log : Block.Refs} {stash : List Str}
     (h : blockStageX x cfg src = .ok (root, log, stash)) :
     InlineN.Deep (Inline.IdsLt 0) root ∧ ∀ e ∈ stash, EntryLt e := by
@@ -81,7 +81,7 @@ theorem blockStageX_deepF {x : Exts} {cfg : Cfg} {src : Str} (hf : x.fencedCode 
   · cases h
   · cases h
   · next text stash' hp =>
-    obtain ⟨hown, hnc, hpre⟩ := prepareX_fenced hf ha hp
+    obtain ⟨hown, hnc, hpre⟩ := prepareX_fenced hf hp
     have hstash : ∀ e ∈ stash', EntryLt e := by
       intro e he
       obtain ⟨r, rfl⟩ := hpre e he
@@ -131,9 +131,9 @@ theorem postX_ne_noneL (x : Exts) (cfg : Cfg) {stash : List Str} (he : ∀ e ∈
   obtain ⟨out, hout⟩ := rawHtml_totalL (bl := cfg.blockLevel) he s
   simp [postX, hout]
 
-/-- **`convertXBig` never answers `oof` with fenced_code** (no wikilinks; `&`-free source; `tab_length ≥ 1`) -/
+/-- **`convertXBig` never answers `oof` with fenced_code** (no wikilinks; `tab_length ≥ 1`) -/
 theorem convertXBig_ne_oof_fenced {x : Exts} {cfg : Cfg} (src : Str) (hw : x.wikilinks = false)
-    (hf : x.fencedCode = true) (ha : '&' ∉ src) (htab : 0 < cfg.tab) : convertXBig x cfg src ≠ .oof := by
+    (hf : x.fencedCode = true) (htab : 0 < cfg.tab) : convertXBig x cfg src ≠ .oof := by
   unfold convertXBig
   split
   · intro h; cases h
@@ -147,7 +147,7 @@ theorem convertXBig_ne_oof_fenced {x : Exts} {cfg : Cfg} (src : Str) (hw : x.wik
         | ood => intro h; cases h
         | ok r =>
           obtain ⟨root, log, stash⟩ := r
-          obtain ⟨hdeep, hst⟩ := blockStageX_deepF hf ha htab hb
+          obtain ⟨hdeep, hst⟩ := blockStageX_deepF hf htab hb
           obtain ⟨⟨t, xs⟩, hr⟩ := runXBig_total_nowiki cfg log hw stash hdeep
           have hent := runXBig_html_lt hst hr
           simp only [hr]
